@@ -90,7 +90,9 @@ def array_spec(draw, size, dtype, fuzzy=False, pool=None, mask_kind=None, payloa
     elif tiny:
         # non-zero values far below any "close to zero" tolerance (numpy's isclose / masked_values use 1e-8): they are
         # ordinary numbers to every arithmetic definition, in particular ordinary divisors
-        base = st.one_of(lattice_floats(), lattice_floats(), st.sampled_from(TINY))
+        # (single precision: only magnitudes whose squares and products stay normal numbers of that type -- a spread of
+        # 2**-100 underflows to zero there, which is a limit of the element type, not of the command)
+        base = st.one_of(lattice_floats(), lattice_floats(), st.sampled_from(TINY[:4] if dtype == "float32" else TINY))
     else:
         base = lattice_floats()
     elems = base if not pool else (st.sampled_from(pool) if pool_only else st.one_of(st.sampled_from(pool), base))
